@@ -202,13 +202,16 @@ class Ctx:
                     walk(x)
         for r in roots:
             walk(r)
+        # writes performed while the harness built the pre-state do not count
+        self.pre_mark = len(self.writes)
+        self.pre_cmark = len(self.cwrites)
 
     def pre_writes(self):
-        out = [(o, f, old, new) for (o, f, old, new) in self.writes if o.pre]
+        out = [(o, f, old, new) for (o, f, old, new) in self.writes[getattr(self, "pre_mark", 0):] if o.pre]
         return out
 
     def pre_container_writes(self):
-        return [c for c in self.cwrites if c in self.pre_containers]
+        return [c for c in self.cwrites[getattr(self, "pre_cmark", 0):] if c in self.pre_containers]
 
     def count(self, node):
         n = type(node).__name__
@@ -1751,8 +1754,24 @@ def _b_abs(it, args, kw):
     return abs(v)
 
 
+class _SuperInit(NativeAbs):
+    def call(self, it, args, kwargs):
+        it.ctx.stats["assumed_calls"]["super().__init__ of an external base class has no effect on repository state (T-LARK)"] = 1
+        return None
+
+
+class _SuperProxy(NativeAbs):
+    def getattr(self, it, name):
+        if name == "__init__":
+            return _SuperInit()
+        raise Unsupported(f"super().{name}")
+
+
 def _b_super(it, args, kw):
-    raise Unsupported("super() (only used by RZILTransformer.__init__, which is given a contract)")
+    # zero-argument super() is only used by RZILTransformer.__init__ -> lark.Transformer.__init__
+    if args:
+        raise Unsupported("super(args)")
+    return _SuperProxy()
 
 
 BUILTIN_HANDLERS = {
